@@ -111,6 +111,23 @@ def relation(a, b):
     return "eq" if fa == fb else ("lt" if fa < fb else "gt")
 
 
+CARRIERS = [
+    ("[%s]", lambda v: v[1][0]), ("[0, %s, 1.0]", lambda v: v[1][1]), ("{%s: 1}", lambda v: v[1][0][0]), ("{'k': %s}", lambda v: v[1][0][1]), ("{1: 2, %s: 'v'}", lambda v: v[1][1][0]),
+    ("['Zoë', %s]", lambda v: v[1][1]), ("'東京' == 'x' ? 0 : %s", lambda v: v), ("{'Kraków': %s}", lambda v: v[1][0][1]), ("'é😀' ; %s", lambda v: v), ("['日本', [%s]]", lambda v: v[1][1][1][0]),
+    ("x = %s; x", lambda v: v), ("x = [%s]; x", lambda v: v[1][0]), ("true ? %s : 0", lambda v: v), ("(%s)", lambda v: v), ("\n\t %s \r\n", lambda v: v), ("0; %s", lambda v: v),
+    ("[[], {}, '', %s]", lambda v: v[1][3]), ("{[%s]: 0}", lambda v: v[1][0][0][1][0]), ("é = %s; [é]", lambda v: v[1][0]), ("{%s: %s}", lambda v: v[1][0][1]), ("{%s: %s}", lambda v: v[1][0][0]),
+]
+
+
+def litpos_ok(res, lit, idx):
+    m, s_ = lit_parts(lit)
+    try:
+        got = CARRIERS[idx][1]((res or {}).get("ok"))
+    except (TypeError, IndexError, KeyError):
+        got = None
+    return got is not None and got[0] == "n" and int(got[1]) == m and got[2] == s_, got
+
+
 def run_shard(desc):
     kind, si, nshards, n, profile = desc
     rnd = common.rng(PROP, kind, si)
@@ -164,6 +181,31 @@ def run_shard(desc):
                 part["violations"].append({"sig": ["literal", "digits" if got is None or got[0] != "n" or Fraction(int(got[1]), 10 ** got[2]) != Fraction(m, 10 ** s) else "scale"],
                                            "what": "literal `%s` evaluates to %s, expected mantissa %d scale %d" % (l, json.dumps(res or r.get("perr")), m, s),
                                            "replay": {"steps": [{"op": "exec", "text": l}], "expect": ["n", str(m), s]}})
+    elif kind == "litpos":
+        # the same literals in every syntactic position of a carrier program (list element, map key, map value, branch, argument
+        # list, assignment, behind multi-byte string literals, behind line breaks): digits and scale must arrive unchanged
+        items = []
+        for _ in range(n):
+            m, s_ = gen.rand_num(rnd)
+            lit = ref.num_text(abs(m), s_)
+            if rnd.random() < 0.3:
+                lit = rnd.choice(["1.10", "2.50", "2000.00", "0.0", "0.000", "100", "1.0000000000000000000000000000", "12.5", "7.90"])
+            ci = rnd.randrange(len(CARRIERS))
+            items.append((CARRIERS[ci][0].replace("%s", lit), lit, ci))
+        recs, events, _ = common.run_batch([{"op": "exec", "text": t_} for t_, _, _ in items], wd, "litpos-%d" % si, profile)
+        for (text, lit, ci), r in zip(items, recs):
+            if r is None:
+                continue
+            part["evaluations"] += 1
+            part["counts"]["wl_litpos"] += 1
+            m, s_ = lit_parts(lit)
+            res = r.get("res", {})
+            okk, got = litpos_ok(res, lit, ci)
+            if okk:
+                part["classes"].add("litpos:%s" % text.replace(lit, "L")[:24])
+            elif len(part["violations"]) < 40:
+                part["violations"].append({"sig": ["literal-in-position", text.replace(lit, "L")[:24]], "what": "in `%s` the literal %s arrives as %s (whole result %s), expected mantissa %d scale %d" % (text, lit, json.dumps(got), json.dumps(res or r.get("perr"), ensure_ascii=False)[:300], m, s_),
+                                           "replay": {"steps": [{"op": "exec", "text": text}], "litpos": [lit, ci]}})
     elif kind == "bad":
         progs = []
         for b in BAD:
@@ -237,6 +279,7 @@ def run(rep, tier):
         shards.append(("litrand", i, 0, per, "release" if i % 2 else "verifdbg"))
     for i in range(8):
         shards.append(("littwin", i, 0, 60 if tier == "quick" else 1500, "release" if i % 2 else "verifdbg"))
+        shards.append(("litpos", i, 0, 1500 if tier == "quick" else 60000, "release" if i % 2 else "verifdbg"))
     for i in range(np_ // per):
         shards.append(("pair", i, 0, per, "release" if i % 2 else "verifdbg"))
     for part in common.pmap(run_shard, shards):
@@ -254,7 +297,10 @@ def replay(path):
         run = common.run_vexec(r["steps"], wd, "replay", "verifdbg")
         rec = run.steps()[0]
         print(json.dumps(rec, ensure_ascii=False))
-        ok = (rec.get("p") == "err") if r.get("expect") == "err" else (rec.get("res", {}).get("ok") == r.get("expect"))
+        if "litpos" in r:
+            ok = litpos_ok(rec.get("res"), r["litpos"][0], r["litpos"][1])[0]
+        else:
+            ok = (rec.get("p") == "err") if r.get("expect") == "err" else (rec.get("res", {}).get("ok") == r.get("expect"))
     else:
         res, _ = evalcheck.run_programs(PROP, "replay", [{"tree": r["tree"], "text": r["program"], "vars": r["vars"]}], r.get("profile", "verifdbg"))
         print(res[0][0], res[0][1])
